@@ -11,7 +11,7 @@ def o_peakloc(spec, r, extra):
         l, m_, rr = x[(idx - 1) % n], x[idx], x[(idx + 1) % n]; den = l + rr - 2 * m_
         if den == 0: return False, 'degenerate (flat) parabola'
         exp = idx + (l - rr) / (2 * den)
-    return abs(r['ret'] - exp) > 1e-9 * max(1.0, abs(exp)), f"peakloc(x={x[:n]}, idx={idx}, cyclic={bool(cyc)}) = {r['ret']!r}; vertex of the parabola through the three samples around idx is at {exp!r}"
+    return not (abs(r['ret'] - exp) <= 1e-9 * max(1.0, abs(exp))), f"peakloc(x={x[:n]}, idx={idx}, cyclic={bool(cyc)}) = {r['ret']!r}; vertex of the parabola through the three samples around idx is at {exp!r}"
 def o_finddelay(spec, r, extra):
     n = spec[1][1]; d = sgn(spec[2][1], 32)
     if r['status'] != 'ok' or r['ret'] == H_THROW: return True, f"finddelay: {r['status']} / threw"
@@ -160,7 +160,14 @@ def job_detect(res, nh, pos, nframes, absent=False):
         claims.append(z3.BoolVal(bool(same)))
         sol = z3.Solver(); sol.set('timeout', 120000); sol.add(*p.m.pc); sol.add(z3.Not(z3.And(*claims))); c = sol.check(); res.queries += 1
         if c == z3.unsat: res.ob(True, 'NRA-PATH', f'{label}: path |pc|={len(p.m.pc)}: exactly one detection, offset = index of the last preamble sample, preamble samples returned (same terms), score^2 within 1e-6 of 1 for every amplitude on the path')
-        elif c == z3.sat: cex(model_float(model_dict(sol), 'A', 1.0), f'{label}: score / returned samples wrong')
+        elif c == z3.sat:
+            # prefer the extreme amplitudes of the path (a level-dependent score is worst there); fall back to the solver's own model
+            Av = model_float(model_dict(sol), 'A', 1.0)
+            for lim in (z3.RealVal('2/1000'), z3.RealVal('2/100')):
+                sol.push(); sol.add(A <= lim)
+                if sol.check() == z3.sat: Av = model_float(model_dict(sol), 'A', Av); sol.pop(); break
+                sol.pop()
+            cex(Av, f'{label}: score / returned samples wrong')
         else: res.inc(f'{label}: score claim undecided')
 
 JOBFNS = {'peakloc': job_peakloc, 'delayseq': job_delayseq, 'finddelay': job_finddelay, 'gcc': job_gcc, 'detect': job_detect}
